@@ -40,15 +40,17 @@ type vcReportExp struct {
 }
 
 type vcExp struct {
-	Stored    []string        `json:"stored"`
-	Pending   []string        `json:"pending"`
-	Sends     []vcSendExp     `json:"sends"`
-	Delivered []string        `json:"delivered"`
-	Reports   []vcReportExp   `json:"reports"`
-	RawSeq    json.RawMessage `json:"seq"`
-	RawCopies json.RawMessage `json:"copies"`
-	Copies    map[string]int  `json:"-"`
-	Seq       map[string]int  `json:"-"`
+	Stored    []string            `json:"stored"`
+	Pending   []string            `json:"pending"`
+	Sends     []vcSendExp         `json:"sends"`
+	Delivered []string            `json:"delivered"`
+	Reports   []vcReportExp       `json:"reports"`
+	RawSeq    json.RawMessage     `json:"seq"`
+	RawCopies json.RawMessage     `json:"copies"`
+	RawMem    json.RawMessage     `json:"mem"`
+	Mem       map[string][]string `json:"-"`
+	Copies    map[string]int      `json:"-"`
+	Seq       map[string]int      `json:"-"`
 }
 
 type vcStep struct {
@@ -84,11 +86,70 @@ type vcReplayer struct {
 	n     int
 	steps int
 	// successful transmissions of a bundle to a peer while the bundle has been in the store without interruption
-	okSent map[string]bool
-	late   bool
-	stepT0 time.Time // when the current event was injected
+	okSent    map[string]bool
+	late      bool
+	stepT0    time.Time // when the current event was injected
+	memChecks int
 	// forced interleavings of concurrent failure reports (two store updates of one record)
 	gatedSteps, gateHits int
+}
+
+// memOf reads the algorithm's memory of the peers that have the bundle called name already (as peer names).
+func (r *vcReplayer) memOf(name string) (peers []string, has bool) {
+	var eids []bpv7.EndpointID
+	switch a := r.w.c.routing.(type) {
+	case *SprayAndWait, *BinarySpray:
+		var data map[bpv7.BundleID]sprayMetaData
+		var mu *sync.RWMutex
+		if x, ok := a.(*SprayAndWait); ok {
+			data, mu = x.bundleData, &x.dataMutex
+		} else {
+			y := a.(*BinarySpray)
+			data, mu = y.bundleData, &y.dataMutex
+		}
+		found, _, seq, _ := r.w.lookup(name)
+		if !found {
+			return nil, false
+		}
+		oid := r.w.orig[name].ID()
+		if r.cfg.Cat[name].Origin == "app" {
+			oid.Timestamp[1] = uint64(seq)
+		}
+		mu.RLock()
+		md, ok := data[oid]
+		eids = append(eids, md.sent...)
+		mu.RUnlock()
+		if !ok {
+			return nil, false
+		}
+	default:
+		key := "routing/" + r.cfg.Algo + "/sent"
+		if r.cfg.Algo == "mule" {
+			key = "routing/epidemic/sent"
+		}
+		found, _, seq, _ := r.w.lookup(name)
+		if !found {
+			return nil, false
+		}
+		oid := r.w.orig[name].ID()
+		if r.cfg.Cat[name].Origin == "app" {
+			oid.Timestamp[1] = uint64(seq)
+		}
+		bi, err := r.w.c.store.QueryId(oid)
+		if err != nil {
+			return nil, false
+		}
+		eids, _ = bi.Properties[key].([]bpv7.EndpointID)
+	}
+	seen := map[string]bool{}
+	for _, e := range eids {
+		n := strings.TrimSuffix(strings.TrimPrefix(e.String(), "dtn://"), "/")
+		if !seen[n] {
+			seen[n] = true
+			peers = append(peers, n)
+		}
+	}
+	return peers, true
 }
 
 // copiesOf reads the spray-and-wait copy counter of the bundle called name.
@@ -558,6 +619,25 @@ func (r *vcReplayer) run() string {
 				}
 			}
 		}
+		// --- the algorithm's memory of who has which bundle (a wrong mark shows at once, not only when a later contact is missed)
+		for name, want := range s.Exp.Mem {
+			got, has := r.memOf(name)
+			if !has {
+				continue // not stored (reported by the store comparison below)
+			}
+			// peers only: the code also notes other node IDs (e.g. the bundle's source) that no peer of this world bears
+			var gp []string
+			for _, g := range got {
+				if _, isPeer := r.w.peers[g]; isPeer {
+					gp = append(gp, g)
+				}
+			}
+			r.memChecks++
+			if vcSet(gp) != vcSet(want) {
+				r.viol(r.cfg.Prop, "core/"+s.Act+"/routing-memory", fmt.Sprintf("bundle %s: the algorithm remembers {%s} as having it, expected {%s}", name, vcSet(gp), vcSet(want)), nil)
+				return "viol"
+			}
+		}
 		// --- deliveries
 		var dl []string
 		for _, d := range delivered {
@@ -735,6 +815,10 @@ func TestVerifCoreReplay(t *testing.T) {
 			if len(it.H[i].Exp.RawSeq) > 0 && it.H[i].Exp.RawSeq[0] == '{' {
 				_ = json.Unmarshal(it.H[i].Exp.RawSeq, &it.H[i].Exp.Seq)
 			}
+			it.H[i].Exp.Mem = map[string][]string{}
+			if len(it.H[i].Exp.RawMem) > 0 && it.H[i].Exp.RawMem[0] == '{' {
+				_ = json.Unmarshal(it.H[i].Exp.RawMem, &it.H[i].Exp.Mem)
+			}
 			it.H[i].Exp.Copies = map[string]int{}
 			if len(it.H[i].Exp.RawCopies) > 0 && it.H[i].Exp.RawCopies[0] == '{' {
 				_ = json.Unmarshal(it.H[i].Exp.RawCopies, &it.H[i].Exp.Copies)
@@ -763,6 +847,7 @@ func TestVerifCoreReplay(t *testing.T) {
 			status = r.run()
 			nsteps = r.steps
 			mu.Lock()
+			st["routing_memory_comparisons"] += r.memChecks
 			st["gated_steps"] += r.gatedSteps
 			st["gate_forced_overlaps"] += r.gateHits
 			mu.Unlock()
